@@ -155,11 +155,15 @@ def run(F, R):
     R.count("supergraph_nodes", len(S.live) + len(Sr.live))
 
     # ---------------------------------------------------------------- R1 taint typestate
-    R.rule("C02-R0", "premise shared with C01: the verifier the state machine relies on returns Ok only behind the key lookup by the request's key id and one ECDSA verification under that key")
+    R.rule("C02-R0", "premise shared with C01: verify_response returns Ok only behind the request-hash comparison and the signature verification of this exchange's ETag (no cache, fast path or fallback around them); the verifier returns Ok only behind the key lookup by the request's key id and one ECDSA verification under that key")
     from . import c01 as _c01
     vs_ = lib.one(R, "C02-R0", c, "verify_response_with_signature impl", item="verify_response_with_signature", impl_self=_c01.H, impl_trait="cup_ecdsa::Cupv2Verifier")
     if vs_:
         _c01.verifier_gate(R, "C02-R0", vs_)
+    vr_ = lib.one(R, "C02-R0", c, "verify_response impl for StandardCupv2Handler", item="verify_response", impl_self=_c01.H, impl_trait="cup_ecdsa::Cupv2RequestHandler")
+    if vr_:
+        from .. import flow as _flow0
+        _c01.accept_gates(R, "C02-R0", _flow0.World([c]), vr_)
     R.rule("C02-R1", "typestate: an HTTP response obtained from HttpRequest::request is only borrowed into verify_response until the Ok edge of verification (or the no-handler edge) has been crossed")
     bodies = set(cx.bv.id for cx in S.ctxs) | set(cx.bv.id for cx in Sr.ctxs)
     total = 0
